@@ -58,6 +58,29 @@ def twin_grammars():
     return out
 
 
+WIDE_TS = tuple("xyabcdefghijklmnopqrstuvwz")
+
+
+@functools.lru_cache(maxsize=None)
+def wide_grammars():
+    """one rule with twelve alternatives 'f_i t_i': exactly two start with
+    x, exactly two with y, the others with terminals of their own.
+    Production ids and state numbers have two digits; the kernels after x
+    and after y hold two productions each, for every choice of the four
+    positions (2970 grammars)."""
+    out = []
+    rest = "mnopqrstuvwz"
+    for xs in itertools.combinations(range(12), 2):
+        for ys in itertools.combinations([i for i in range(12) if i not in xs],
+                                         2):
+            prods = []
+            for i, t in enumerate("abcdefghijkl"):
+                f = "x" if i in xs else "y" if i in ys else rest[i]
+                prods.append(("S", (f, t)))
+            out.append(tuple(prods))
+    return out
+
+
 SPACES = {
     "k3": dict(nts=("S", "A"), ts=("a", "b"), r=2, k=3),
     "k4": dict(nts=("S", "A"), ts=("a", "b"), r=2, k=4),
@@ -65,12 +88,15 @@ SPACES = {
     "r3": dict(nts=("S", "A"), ts=("a", "b"), r=3, k=3),
     "n3": dict(nts=("S", "A", "B"), ts=("a", "b"), r=2, k=4),
     "twin": dict(family="twin", nts=TWIN_NTS, ts=TWIN_TS),
+    "wide": dict(family="wide", nts=("S",), ts=WIDE_TS),
 }
 
 
 def space_grammars(sp):
     if sp.get("family") == "twin":
         return twin_grammars()
+    if sp.get("family") == "wide":
+        return wide_grammars()
     return spaces.grammars(**sp)
 
 
@@ -84,10 +110,12 @@ def plan(tier, seed):
                 ("n3", (seed, 40), "main"),
                 # same-kernel states that must not be merged (refused LALR
                 # merges), lookaheads that arrive only by propagation
-                ("twin", None, "main")]
+                ("twin", None, "main"), ("wide", None, "main"),
+                ("r3", None, "kinds")]
     return [("k4", None, "main"), ("k4", None, "layout"),
             ("k5", None, "main"), ("r3", None, "main"), ("n3", None, "main"),
-            ("r3", None, "layout"), ("twin", None, "main")]
+            ("r3", None, "layout"), ("twin", None, "main"),
+            ("wide", None, "main")]
 
 
 def units(tier, seed):
@@ -96,8 +124,9 @@ def units(tier, seed):
         n = len(space_grammars(SPACES[space]))
         idxs = list(range(n)) if win is None else list(
             spaces.window(n, win[0], win[1]))
-        for i in range(0, len(idxs), CHUNK):
-            out.append({"space": space, "idx": idxs[i:i + CHUNK], "start": start})
+        chunk = 1500 if start == "kinds" else CHUNK
+        for i in range(0, len(idxs), chunk):
+            out.append({"space": space, "idx": idxs[i:i + chunk], "start": start})
     return out
 
 
@@ -355,6 +384,39 @@ def bind_driver(judge, stats, mon, g, table, text, gk, R, ren, kind, seen,
                 stats["driver_disagrees_with_table"] += 1
 
 
+def kinds_on_one_grammar(judge, stats, text, gk):
+    """an SLR table and then a LALR table (and the reverse) built on one
+    Grammar object must equal the tables built on fresh objects: FIRST sets
+    are cached on the grammar, FOLLOW sets are derived from them"""
+    from parglare.tables.persist import table_to_serializable
+    from pgmc.findings import digest
+
+    def ser(gr, its):
+        with drive.quiet():
+            t = create_table(gr, its, prefer_shifts=False,
+                             prefer_shifts_over_empty=False)
+        return digest(table_to_serializable(t))
+    try:
+        want = {"LALR": ser(grammar_from_string(text), LR_1),
+                "SLR": ser(grammar_from_string(text), LR_0)}
+        g1 = grammar_from_string(text)
+        got = {"SLR first": ser(g1, LR_0), "LALR after SLR": ser(g1, LR_1),
+               "SLR again": ser(g1, LR_0)}
+        g2 = grammar_from_string(text)
+        got["LALR first"] = ser(g2, LR_1)
+        got["SLR after LALR"] = ser(g2, LR_0)
+    except BudgetExceeded:
+        return
+    stats["shared_grammar_tables"] += 5
+    bad = sorted(k for k in got
+                 if got[k] != want["LALR" if k.startswith("LALR") else "SLR"])
+    if bad:
+        judge.deviation(None, "shared/kinds", gk, "",
+                        "a table depends on the tables built before it on the "
+                        "same Grammar object", {"differs": bad},
+                        {"grammar": text})
+
+
 def shared_grammar(judge, stats, g, text, gk, kind):
     """Parser builds the LAYOUT table and then the main table on the same
     Grammar object: a table must not depend on tables built before it
@@ -389,7 +451,34 @@ def shared_grammar(judge, stats, g, text, gk, kind):
                         {"grammar": text, "tables": kind})
 
 
+def kinds_unit(u):
+    """only the shared-Grammar comparison (SLR and LALR tables on one
+    object), on every grammar of the space that has a right-hand side of
+    three symbols and an EMPTY production"""
+    sp = SPACES[u["space"]]
+    nts = sp["nts"]
+    gs = space_grammars(sp)
+    judge = Judge(PROP, KNOWN)
+    stats = collections.Counter()
+    for gi in u["idx"]:
+        prods = gs[gi]
+        if not (any(len(r) == 3 for _, r in prods)
+                and any(len(r) == 0 for _, r in prods)):
+            continue
+        text, _ = render(prods, nts, "main")
+        kinds_on_one_grammar(judge, stats, text, spaces.gkey(prods, nts))
+        stats["grammars"] += 1
+        stats["nontrivial"] += 1
+        stats["tables"] += 5
+    r = judge.result()
+    r.update(stats)
+    r.update(samples=[], glr_states=0, glr_transitions=0)
+    return r
+
+
 def run_unit(u):
+    if u["start"] == "kinds":
+        return kinds_unit(u)
     sp = SPACES[u["space"]]
     nts = sp["nts"]
     gs = space_grammars(sp)
@@ -418,9 +507,14 @@ def run_unit(u):
             seen = check_table(judge, stats, mon, g, text, gk, R, ren, kind,
                                u["start"], ordered)
             if seen is not None and u["start"] == "main":
+                if kind == "SLR":
+                    kinds_on_one_grammar(judge, stats, text, gk)
                 seen, table = seen
-                bind_driver(judge, stats, mon, grammar_from_string(text), table,
-                            text, gk, R, ren, kind, seen, earley)
+                if u["space"] != "wide":
+                    # (the wide family is about the table's item sets; its
+                    # language is finite and trivial)
+                    bind_driver(judge, stats, mon, grammar_from_string(text),
+                                table, text, gk, R, ren, kind, seen, earley)
             elif seen is not None:
                 seen = seen[0]
                 shared_grammar(judge, stats, g, text, gk, kind)
